@@ -70,10 +70,10 @@ type c16A struct {
 	Decls []c16Decl `json:"decls"`
 }
 type c16E struct {
-	Prog    int        `json:"prog"`
+	Prog    int         `json:"prog"`
 	Visible [][2]string `json:"visible"`
 	Facts   [][2]string `json:"facts"`
-	Ok      bool       `json:"ok"`
+	Ok      bool        `json:"ok"`
 }
 
 type c16Out struct {
@@ -220,6 +220,9 @@ type fresh struct {
 // analysis calls with equal keys have equal results.
 func (f *fresh) keyKnown(extra ...string) []c16Decl {
 	st := append(append([]string{}, f.stack...), extra...)
+	if len(st) == 0 { // interpreter.New: the table is empty
+		return append([]c16Decl{}, f.baseKnown...)
+	}
 	return append([]c16Decl{{"", c16Src{I: st}}}, f.baseKnown...)
 }
 
